@@ -83,13 +83,15 @@ LEAF_POOL = [
     {"kind": "any"},
     {"kind": "none"},
     {"kind": "rulebase"},
+    {"kind": "str", "name": "FwdA"},            # a string operand: ForwardRef by name (stays unresolved: C17's business)
+    {"kind": "self"},                           # typing.Self, kept as it is by _parse_arg
 ]
 UTYPE_KINDS = ("rule", "dc")          # operands whose metaclass makes Python call utype's operators
 
 VALUE_POOL = [
     None, True, False,
     {"i": "0"}, {"i": "1"}, {"i": "3"}, {"i": "4"}, {"i": "8"}, {"i": "-3"}, {"i": "10"}, {"i": "50"}, {"i": "101"}, {"s": "50"},
-    {"f": "3.0"}, {"f": "3.5"}, {"f": "-2.5"}, {"f": "nan"},
+    {"f": "3.0"}, {"f": "3.5"}, {"f": "-2.5"}, {"f": "nan"}, {"f": "inf"}, {"f": "1e300"}, {"d": "Infinity"}, {"s": "inf"},
     {"s": "3"}, {"s": "3.0"}, {"s": "3.5"}, {"s": "-2"}, {"s": "8"}, {"s": "abc"}, {"s": "a"}, {"s": "mon"}, {"s": "abcd"},
     {"s": ""}, {"s": "null"}, {"s": "true"}, {"s": "1.25"}, {"s": "2000-01-02"}, {"s": "[1, 2]"}, {"s": "x y"},
     {"b": "3"}, {"b": "abc"}, {"b": "tue"},
@@ -113,6 +115,7 @@ OPTS_POOL = [
     {"collect_errors": True}, {"collect_errors": True, "max_errors": 1}, {"collect_errors": True, "max_errors": 2},
     {"collect_errors": True, "no_explicit_cast": True},
     {"override": True}, {"override": True, "no_data_loss": True}, {"override": True, "collect_errors": True},
+    {"max_depth": 1}, {"max_depth": 2, "collect_errors": True},     # a combinator does not add nesting levels (depth itself: C18)
 ]
 
 
@@ -299,6 +302,11 @@ def _mk_leaf(d, made=None):
             if dv is not None:
                 attrs[n] = decode_value(dv)
         return type(d["name"], ((made or {})[d["base"]] if d.get("base") else Schema,), attrs)
+    if k == "str":
+        return d["name"]                 # a string operand = a forward reference by name (never resolved here)
+    if k == "self":
+        from utype.utils.compat import Self
+        return Self
     if k == "any":
         return typing.Any
     if k == "none":
@@ -309,13 +317,28 @@ def _mk_leaf(d, made=None):
 
 
 def _mk_leaves(leaves):
+    import typing
     made, raws = {}, []
     for d in leaves:
+        if d["kind"] == "tunion":        # typing.Union[...] of earlier leaves of the case (classes / None)
+            raws.append(typing.Union[tuple(raws[i] for i in d["of"])])
+            continue
         r = _mk_leaf(d, made)
         raws.append(r)
         if d.get("name") and d["kind"] in ("rule", "dc"):
             made[d["name"]] = r
     return raws
+
+
+def _seen(d, raw):
+    """the leaf as a combinator sees it"""
+    from utype.parser.rule import LogicalType
+    from utype.utils.compat import ForwardRef
+    if d["kind"] in ("alias", "lit", "none", "tunion"):
+        return LogicalType._parse_arg(raw)
+    if d["kind"] == "str":
+        return ForwardRef(raw)
+    return raw
 
 
 class _Foreign(Exception):
@@ -341,7 +364,7 @@ def _is_operand(x, raws):
     import typing
     from utype.parser.rule import LogicalType
     from utype.schema import LogicalMeta
-    if isinstance(x, (LogicalType, LogicalMeta)) or x is typing.Any or x is None:
+    if isinstance(x, (LogicalType, LogicalMeta)) or x is typing.Any or x is None or type(x).__name__ == "ForwardRef":
         return True
     return any(x is r for r in raws)
 
@@ -408,20 +431,30 @@ def _copy(v):
         return v
 
 
-def _call(T, kw, v):
-    """the public entry points: a combinator type is called, anything else goes through the transformer"""
-    from utype import Options
+def _call(T, kw, v, dirty=None, info=None):
+    """the public entry points: a combinator type is called, anything else goes through the transformer.
+    `dirty`: the context handed in already holds an error ("errors") or a pending one ("tmp").
+    `info` (a dict) receives what the call left in the context it was given."""
+    from utype import Options, exc
     from utype.parser.rule import LogicalType
     ctx = Options(**kw).make_context()
+    if dirty == "errors":
+        ctx.errors.append(exc.ParseError("an earlier error"))
+    elif dirty == "tmp":
+        ctx.tmp_errors.append(exc.ParseError("an earlier pending error"))
     try:
         if isinstance(T, LogicalType) and T.combinator:
-            r = T(_copy(v), context=ctx) if kw else T(_copy(v))
+            r = T(_copy(v), context=ctx) if (kw or dirty) else T(_copy(v))
         else:
             r = ctx.transformer(_copy(v), T)
     except RecursionError:
         return ("err", {"e": "RecursionError", "sub": [], "np": True})
     except Exception as e:
+        if info is not None:
+            info["rec"] = [errtree(x) for x in ctx.errors]
         return ("err", errtree(e))
+    if info is not None:
+        info["dirty"] = bool(ctx.errors or ctx.tmp_errors)
     return ("ok", r)
 
 
@@ -435,7 +468,7 @@ def impl(case):
     raws = _mk_leaves(leaves)
     dcs = {d["name"]: raws[i] for i, d in enumerate(leaves) if d["kind"] == "dc"}
     # the leaf as a combinator sees it
-    seen = [LogicalType._parse_arg(r) if leaves[i]["kind"] in ("alias", "lit", "none") else r for i, r in enumerate(raws)]
+    seen = [_seen(leaves[i], r) for i, r in enumerate(raws)]
     sig = {repr(seen[i]): i for i, d in enumerate(leaves) if d["kind"] in ("alias", "lit")}
     out = {}
     built, neglog = [], []
@@ -458,6 +491,9 @@ def impl(case):
         attrs = {"__annotations__": {"f": ann}, "__module__": __name__}
         if _kw(case["opts"]):
             attrs["__options__"] = Options(**_kw(case["opts"]))
+        if root is typing.Any:
+            via = None              # (the class parser turns a bare `Any` annotation into `Rule`: nothing of C09 in it)
+    if via:
         try:
             holder = type("Holder", (Schema,), attrs)
             root = holder.__parser__.fields["f"].type
@@ -475,6 +511,11 @@ def impl(case):
                 return i
         if x is type(None):
             return 0
+        for i, d in enumerate(leaves):
+            if d["kind"] == "self" and x is raws[i]:
+                return i
+            if d["kind"] == "str" and type(x).__name__ == "ForwardRef" and getattr(x, "__forward_arg__", None) == raws[i]:
+                return i
         return None
 
     node_index = {}
@@ -531,9 +572,9 @@ def impl(case):
         rec = {"kind": kind_, "operand": sx, "result": sr,
                "operand_ref": {k: v for k, v in cx.items() if k != "obj"}, "result_ref": {k: v for k, v in cr.items() if k != "obj"}}
         if isinstance(ux, LogicalType) and ux.combinator == "~" and len(ux.args) == 1:
-            rec["result_is_inner"] = ur is ux.args[0]                      # ~~T is T
+            rec["result_is_inner"] = res is ux.args[0]                     # ~~T is T (the very object, wrapper included)
         if isinstance(ur, LogicalType) and ur.combinator == "~":
-            rec["arg_is_operand"] = len(ur.args) == 1 and ur.args[0] is ux   # ~T has args [T]
+            rec["arg_is_operand"] = len(ur.args) == 1 and (ur.args[0] is x or ur.args[0] is ux)   # ~T has args [T]
         invs.append(rec)
     out["invs"] = invs
 
@@ -555,7 +596,7 @@ def impl(case):
     vid(v0)
     table, exact, ntable = [], [], []
     incomplete = False
-    measured = [(i, seen[i]) for i, d in enumerate(leaves)]
+    measured = [(i, seen[i]) for i, d in enumerate(leaves) if d["kind"] != "tunion"]
     done = 0
     for _round in range(6):
         todo = order[done:]
@@ -568,15 +609,18 @@ def impl(case):
                 if leaves[i]["kind"] in ("cls", "dc") and type(obj) == raws[i]:
                     exact.append([i, n])
                 for var in vars_:
-                    kind, r = _call(LT, _kw(opts, var), obj)
+                    info = {}
+                    kind, r = _call(LT, _kw(opts, var), obj, info=info)
                     if kind == "ok":
                         m = vid(r)
                         if m is None:
                             incomplete = True
                             continue
-                        table.append([i, var[0], var[1], n, {"ok": m}])
+                        # (model assumption, checked: a leaf that returns normally leaves the context untouched)
+                        table.append([i, var[0], var[1], n, dict({"ok": m}, **({"dirty": True} if info.get("dirty") else {}))])
                     else:
-                        table.append([i, var[0], var[1], n, {"err": r}])
+                        # errors the leaf RECORDED in the context it was given before raising (Rule.parse does)
+                        table.append([i, var[0], var[1], n, {"err": r, "rec": info.get("rec", [])}])
     else:
         incomplete = True
     for key in order:
@@ -597,7 +641,7 @@ def impl(case):
         except Exception as e:
             kind, r = "err", errtree(e)
     else:
-        kind, r = _call(root, _kw(opts), v0)
+        kind, r = _call(root, _kw(opts), v0, dirty=case.get("dirty"))
     if kind == "ok":
         rk = json.dumps(enc(r), sort_keys=True)
         out["out"] = {"ok": vals[rk][0]} if rk in vals else {"ok": None, "enc": enc(r)}
@@ -618,8 +662,8 @@ def _probe(case):
     leaves = case["leaves"]
     raws = _mk_leaves(leaves)
     dcs = {d["name"]: raws[i] for i, d in enumerate(leaves) if d["kind"] == "dc"}
-    seen = [LogicalType._parse_arg(r) if leaves[i]["kind"] in ("alias", "lit", "none") else r for i, r in enumerate(raws)]
-    acc, conv, thread, origin = [], [], [], []
+    seen = [_seen(leaves[i], r) for i, r in enumerate(raws)]
+    acc, conv, thread, origin, rej = [], [], [], [], []
     for j, vd in enumerate(case["values"]):
         v = decode_value(vd, dcs)
         key = json.dumps(enc(v), sort_keys=True)
@@ -634,6 +678,8 @@ def _probe(case):
                 outs[i] = r
                 if json.dumps(enc(r), sort_keys=True) != key:
                     conv.append([i, j])
+            else:
+                rej.append([i, j, r["e"]])
         for i, r in outs.items():
             if [i, j] not in conv:
                 continue
@@ -643,7 +689,7 @@ def _probe(case):
                 kind, _ = _call(LT, {}, r)
                 if (kind == "ok") != (b in outs):
                     thread.append([i, b, j])      # leaf i converts value j; leaf b accepts exactly one of (value, converted)
-    return {"acc": acc, "conv": conv, "thread": thread, "origin": origin}
+    return {"acc": acc, "conv": conv, "thread": thread, "origin": origin, "rej": rej}
 
 
 # ------------------------------------------------------------------------------------------------
@@ -720,7 +766,7 @@ def expected_chain(case, e, op):
                 if op != "&":
                     return ("rb",)
                 continue
-            stable = k == "RB" or case["leaves"][k]["kind"] in ("cls", "rule", "dc")
+            stable = k == "RB" or case["leaves"][k]["kind"] in ("cls", "rule", "dc", "str", "self")
             if stable:
                 if k in seen:
                     continue
@@ -737,6 +783,8 @@ def expected_chain(case, e, op):
 
     def atom(i):
         k = case["leaves"][i]["kind"]
+        if k == "tunion":
+            return ("tu", list(case["leaves"][i]["of"]))
         return ("leaf", "ANY") if k == "any" else ("rb",) if k == "rulebase" else ("leaf", 0 if k == "none" else i)
 
     def go(x):
@@ -744,9 +792,18 @@ def expected_chain(case, e, op):
             return atom(x["atom"])
         if x.get("bin") == op:
             l, r = go(x["l"]), go(x["r"])
-            return None if l is None or r is None else step(parts(l) + parts(r))
+            if l is None or r is None or l[0] == "tu":
+                return None
+            if r[0] == "tu":
+                if op != "|":
+                    return None             # kept as ONE wrapped operand: not a chain over leaves
+                return step(parts(l) + r[1])   # `x | Union[a, b]` splats the members
+            return step(parts(l) + parts(r))
         if x.get("call") == op and all("atom" in a for a in x["args"]):
-            return step([p for a in x["args"] for p in parts(atom(a["atom"]))])
+            ats = [atom(a["atom"]) for a in x["args"]]
+            if any(a[0] == "tu" for a in ats):
+                return None
+            return step([p for a in ats for p in parts(a)])
         return None
 
     return go(e)
@@ -830,6 +887,24 @@ def negation_step_violations(case, io) -> list:
                 continue
             break
     return out
+
+
+def field_form_violations(case, io) -> list:
+    """a combinator means the same whether it is called or annotates a data-class field: through the field it accepts
+    exactly what the type itself accepts on that input, with the same value"""
+    if not case.get("via") or "node" not in (io.get("root") or {}) or not io.get("variants"):
+        return []
+    var = io["variants"][0]
+    direct = next((o for k, a, b, v, o in io["ntable"] if k == io["root"]["node"] and [a, b] == list(var) and v == 0), None)
+    got = io.get("out")
+    if direct is None or got is None:
+        return []
+    if _is_ok(got) != _is_ok(direct):
+        return [("law", f"field form ({case['via']}): through the field the input is {'accepted' if _is_ok(got) else 'rejected (' + got['err']['e'] + ')'} "
+                        f"but the combinator called directly {'accepts' if _is_ok(direct) else 'rejects'} it")]
+    if _is_ok(got) and got["ok"] != direct["ok"]:
+        return [("law", f"field form ({case['via']}): value {got} differs from the direct call's {direct}")]
+    return []
 
 
 def node_law_violations(case, io) -> list:
@@ -975,6 +1050,12 @@ class Probe:
         self.acc = {(i, j) for i, j in res["acc"]}
         self.conv = {(i, j) for i, j in res["conv"]}
         self.thread = [tuple(t) for t in res["thread"]]
+        # one or two inputs per ⟨leaf, exception class it rejects with⟩ (ValueError, TypeError, InvalidOperation,
+        # OverflowError, ParseError, …): how a combinator handles a rejection must not depend on its class
+        by = {}
+        for i, j, e in res.get("rej", []):
+            by.setdefault((i, e), []).append(j)
+        self.rej_classes = [(i, e, js) for (i, e), js in sorted(by.items())]
         # ⟨rule leaf, value of exactly its origin type⟩, split by whether the leaf accepts the value
         self.origin_rej = [(i, j) for i, j in res.get("origin", []) if (i, j) not in self.acc]
         self.origin_acc = [(i, j) for i, j in res.get("origin", []) if (i, j) in self.acc]
@@ -1012,6 +1093,11 @@ def pick_leaves(rng, k):
 def gen_case(rng, probe: Probe, depth=3):
     idx = pick_leaves(rng, rng.choice([2, 3, 3, 4, 4, 5]))
     leaves = [NONE_LEAF] + [LEAF_POOL[i] for i in idx]
+    if rng.random() < 0.2:
+        # a typing.Union / Optional of two or three leaves of the case (classes, rules, data classes, None)
+        ok = [k for k, d in enumerate(leaves) if d["kind"] in ("cls", "rule", "dc")]
+        if len(ok) >= 2:
+            leaves = leaves + [{"kind": "tunion", "of": sorted(rng.sample(ok, rng.choice([2, 2, 3]) if len(ok) > 2 else 2))}]
     defs = []
     for _ in range(rng.choice([1, 1, 1, 2, 3])):
         defs.append(gen_expr(rng, leaves, rng.randint(1, depth), len(defs)))
@@ -1106,10 +1192,32 @@ def origin_type_cases(rng, probe: Probe, n):
         for k, e in enumerate(forms):
             c = {"leaves": leaves, "defs": [e], "opts": dict(rng.choice(OPTS_POOL[:11])), "value": VALUE_POOL[j]}
             via = rng.choice([None, None, "field", "optional_field"]) if k < 6 else None
+            if any(d["kind"] in ("str", "self") for d in leaves):
+                via = None
             if via:
                 c["via"] = via
             out.append(c)
-        out.append({"leaves": leaves, "defs": [A], "opts": {}, "value": VALUE_POOL[j], "via": "optional_field"})
+        if not any(d["kind"] in ("str", "self") for d in leaves):
+            out.append({"leaves": leaves, "defs": [A], "opts": {}, "value": VALUE_POOL[j], "via": "optional_field"})
+    return out
+
+
+def rejection_class_cases(rng, probe: Probe, per_class=1):
+    """every leaf under every combinator on inputs it REJECTS, one (or more) per exception class it rejects with"""
+    out = []
+    for a, exc_name, js in probe.rej_classes:
+        if LEAF_POOL[a]["kind"] in ("any", "rulebase", "none"):
+            continue
+        for j in rng.sample(js, min(per_class, len(js))):
+            leaves, pos = case_leaves([a])
+            leaves = leaves + [{"kind": "none"}, leaf_named("Slug")]
+            A, N, S = {"atom": pos[a]}, {"atom": len(leaves) - 2}, {"atom": len(leaves) - 1}
+            forms = [{"call": "~", "args": [A]}, {"call": "|", "args": [A, N]}, {"call": "^", "args": [A, S]},
+                     {"call": "&", "args": [S, {"call": "~", "args": [A]}]}, {"call": "&", "args": [A, S]}]
+            if LEAF_POOL[a]["kind"] in UTYPE_KINDS:
+                forms.append({"inv": A})
+            for e in forms:
+                out.append({"leaves": leaves, "defs": [e], "opts": dict(rng.choice(OPTS_POOL[:9])), "value": VALUE_POOL[j]})
     return out
 
 
@@ -1140,7 +1248,8 @@ def kind_matrix():
     side is flattened), and `~` of every kind"""
     L = [NONE_LEAF, {"kind": "cls", "name": "int"}, leaf_named("Slug"), leaf_named("PosInt"), leaf_named("DcA"), {"kind": "any"},
          {"kind": "none"}, {"kind": "alias", "spec": "List[int]"}, {"kind": "lit", "value": {"i": "3"}},
-         {"kind": "cls", "name": "str"}, leaf_named("DcUser"), {"kind": "rulebase"}]
+         {"kind": "cls", "name": "str"}, leaf_named("DcUser"), {"kind": "rulebase"},
+         {"kind": "str", "name": "FwdA"}, {"kind": "self"}, {"kind": "tunion", "of": [1, 9]}, {"kind": "tunion", "of": [0, 3]}]
     assert L[2]["name"] == "Slug" and L[3]["name"] == "PosInt" and L[4]["name"] == "DcA" and L[10]["name"] == "DcUser"
     A = lambda i: {"atom": i}
 
@@ -1149,7 +1258,8 @@ def kind_matrix():
         return {"cls": A(1), "rule": A(2), "irule": A(3), "dc": A(4), "any": A(5), "none": A(6), "alias": A(7), "lit": A(8),
                 "same": {"bin": op, "l": A(2), "r": A(3)}, "other": {"bin": other, "l": A(3), "r": A(9)},
                 "neg": {"inv": A(2)}, "dcsame": {"bin": op, "l": A(10), "r": A(2)}, "rulebase": A(11),
-                "callsame": {"call": op, "args": [A(9), A(1)]}}
+                "callsame": {"call": op, "args": [A(9), A(1)]},
+                "fwd": A(12), "self": A(13), "union": A(14), "optional": A(15)}
 
     vals = [{"s": "3"}, {"s": "abc"}, {"l": [{"i": "1"}]}, {"m": [[{"s": "a"}, {"s": "1"}]]}, {"i": "3"}, None]
     out, n = [], 0
@@ -1233,7 +1343,7 @@ class C09(Check):
         "C09_union_accepts_iff assumes the subset law (Mono) of the arguments, which is C12's statement; the stage-wise "
         "theorems (C09_union_refines, C09_union_accepts_iff_stage) do not",
     ]
-    budget = {"quick": 5000, "thorough": 60000}
+    budget = {"quick": 4000, "thorough": 60000}
     search_budget = {"quick": 3000, "thorough": 20000}
     _probe = None
 
@@ -1253,6 +1363,8 @@ class C09(Check):
             out += kind_matrix()
         if tier == "thorough":
             out += exhaustive_small()
+        if tier != "search":
+            out += rejection_class_cases(rng, pr, 1 if tier == "quick" else 3)
         out += related_cases(rng, pr, {"quick": 60, "thorough": 500, "search": 100}.get(tier, 60))
         out += origin_type_cases(rng, pr, {"quick": 60, "thorough": 400, "search": 100}.get(tier, 60))
         out += threading_cases(rng, pr, {"quick": 12, "thorough": 150, "search": 40}.get(tier, 12))
@@ -1260,8 +1372,12 @@ class C09(Check):
             out += perm_family(rng, pr)
         while len(out) < n:
             c = gen_case(rng, pr)
-            if rng.random() < 0.12:
+            k = rng.random()
+            if k < 0.12 and not any(d["kind"] in ("str", "self") for d in c["leaves"]):
+                # (a string / Self operand inside a class body is resolved by the class parser: C17's business)
                 c["via"] = rng.choice(["field", "optional_field"])
+            elif k < 0.18:
+                c["dirty"] = rng.choice(["errors", "errors", "tmp"])     # the caller hands in a USED context
             out.append(c)
             if rng.random() < 0.4:
                 out.append(dict(c, defs=[mirror(d) for d in c["defs"]]))
@@ -1287,10 +1403,13 @@ class C09(Check):
         for row in io.get("table", []):
             if "err" in row[4]:
                 walk(row[4]["err"])
+                for x in row[4].get("rec", []):
+                    walk(x)
         return names
 
     def model_line2(self, case, io):
-        kinds, defs = [d["kind"] for d in case["leaves"]], list(case["defs"])
+        kinds = [("tunion:" + ",".join(map(str, d["of"]))) if d["kind"] == "tunion" else d["kind"] for d in case["leaves"]]
+        defs = list(case["defs"])
         if case.get("via") == "optional_field":
             # the class parser turns Optional[T] into LogicalType.any_of(T, None)
             if "none" not in kinds:
@@ -1300,7 +1419,9 @@ class C09(Check):
                 "opts": {"ndl": bool(case["opts"].get("no_data_loss")), "nec": bool(case["opts"].get("no_explicit_cast")),
                          "collect": bool(case["opts"].get("collect_errors")), "max": case["opts"].get("max_errors"),
                          "override": bool(case["opts"].get("override"))},
-                "table": [], "exact": []}
+                "table": [], "exact": [],
+                # leaves that are Rule classes: Rule.parse ends with raise_error() on the context it was given
+                "checks": [i for i, k in enumerate(kinds) if k in ("rule", "alias", "lit")]}
         if isinstance(io, dict) and "table" in io:
             names = self.err_ids(io)
 
@@ -1308,8 +1429,13 @@ class C09(Check):
                 return {"e": names[t["e"]], "sub": [conv(s) for s in t["sub"]]}
 
             for l, a, b, v, o in io["table"]:
-                line["table"].append([l, a, b, v, o if "ok" in o else {"err": conv(o["err"])}])
+                line["table"].append([l, a, b, v, {"ok": o["ok"]} if "ok" in o else
+                                      {"err": conv(o["err"]), "rec": [conv(x) for x in o.get("rec", [])]}])
             line["exact"] = io["exact"]
+        if case.get("dirty"):
+            earlier = {"e": FIXED_ERR_IDS["ParseError"], "sub": []}
+            line["ctx"] = {"errors": [earlier] if case["dirty"] == "errors" else [],
+                           "tmp": [earlier] if case["dirty"] == "tmp" else []}
         return line
 
     def compare(self, case, io, mo):
@@ -1329,6 +1455,8 @@ class C09(Check):
             return f"constructed types differ: impl={json.dumps(a)} model={json.dumps(b)}"
         if io.get("incomplete"):
             return None
+        if any(row[4].get("dirty") for row in io.get("table", [])):
+            return "a leaf returned normally but left errors in the context it was given (model assumption `Leaves.call`)"
         m = mo.get("out", {})
         if "miss" in m:
             return f"model asked for an unmeasured leaf entry: {m['miss']}"
@@ -1346,12 +1474,9 @@ class C09(Check):
             return f"outcome differs: impl={r} model={m}"
         if case.get("via"):
             return None           # through a field the exception is re-wrapped by the class parser: verdict only
+        if case.get("dirty"):
+            return None           # leaves are measured in clean contexts: with a used context only the verdict is compared
         got, want = strip_np(r["err"]), back(m["err"])
-        if case["opts"].get("collect_errors"):
-            # with error collection the CONTENT of the collected list is not the property's business (and under `&`
-            # a failing Rule argument records its errors in the shared context before raising, so the list holds
-            # them twice): compare the exception class only.  Fail-fast runs compare the whole exception tree.
-            got, want = got["e"], want["e"]
         if got != want:
             return f"outcome differs: impl={r} model={ {'err': back(m['err'])} }"
         return None
@@ -1404,6 +1529,7 @@ class C09(Check):
             out += algebra_violations(case, st)
         out += order_violations(case, steps if io.get("structs") else io["struct"])
         out += negation_step_violations(case, io)
+        out += field_form_violations(case, io)
         out += [("law", w) for w in node_law_violations(case, io)]
         return out
 
